@@ -134,7 +134,7 @@ SPEC = dict(
                 "scopes, priorities; every 2-event history over 8 kinds sharing / not sharing the event name"),
     trusted_base=[
         "value equality: the classes are assigned by the harness with its own structural comparison (c01Equal: element by element, nil and empty "
-        "lists/maps alike, no reflect.DeepEqual) over a fixed universe of values; a kind of value outside that universe (pointer, func, struct) is not covered",
+        "lists/maps alike — the property's reading; c01EqualAsIs additionally separates nil from empty, the code's reading, known finding empty-list-not-equal) over a fixed universe of values; a kind of value outside that universe (pointer, func, struct) is not covered",
         "the cache key: a regenerated three-valued fact (Gen.C01.cacheKey, theorem cacheKey_not_refuted) reads the key expression of IsTriggering; "
         "'established' rests on the claim that fmt's %q rendering of a []string is injective (not proved, sampled by the corpus-cache-key family)",
         "regular expressions are ids in the model; the truth table for the (regex, value) pairs of a case is computed by Go's regexp on fmt.Sprint(value)",
@@ -154,7 +154,7 @@ SPEC = dict(
         "likewise a cached 'triggering' for an event that fires nothing (the property leaves the pre-check free there)",
         "not reached on purpose: getters eventProcessor.ID, UnitTestResetIDs (no clause depends on them); ECAL function values as statematch values",
         "event and rule objects: Rule.Action non-nil (a nil Action is a nil call in a worker = process death); rule and event values are not mutated "
-        "after AddRule / AddEvent by the caller (at ECAL level the statematch pattern is copied at declaration — fixes/C01-statematch-values-copied.patch; "
+        "after AddRule / AddEvent by the caller (at ECAL level a list/map statematch value is stored by reference: known finding statematch-values-aliased; "
         "an event state map is shared with the worker); AddRule / Reset only on a stopped processor (the harness finishes it first; Go refuses otherwise)",
         "concurrency: the theorems are about sequential semantics; workers 1..16 and AddEvent from many goroutines are exercised by the tie, the trigger "
         "cache by a stress run (16 goroutines x fresh kinds; -race build in the thorough tier)",
@@ -183,7 +183,7 @@ META = dict(
                 "into the model, not extracted."),
     level_note=("Trusted: Lean kernel + propext/Classical.choice/Quot.sound; the correspondence harness; Go's regexp (truth table); "
                 "value equality classes computed by the harness. Readings: a self-suppressing rule never runs (spec follows the code, "
-                "property text says 'another'); known findings statematch-nonstring-key and scope-lost-in-nested-instance-state (see known_findings.txt)."),
+                "property text says 'another'); known findings statematch-nonstring-key, scope-lost-in-nested-instance-state, empty-list-not-equal, statematch-values-aliased (see known_findings.txt)."),
 )
 
 
